@@ -26,6 +26,8 @@ func c17refOK(s string) bool {
 	return true
 }
 
+var c17parseN int
+
 func c17one(s string, want string, form string) {
 	c := sx.A(s)
 	got := c17full(s)
@@ -55,6 +57,21 @@ func c17one(s string, want string, form string) {
 			return
 		}
 	}
+	// a plugin that arrives through the parser keeps its source as written (what FullSource then sees)
+	if c17parseN%23 == 0 && strings.ToValidUTF8(s, "\uFFFD") == s && s != "" {
+		if doc, err := json.Marshal(map[string]any{"steps": []any{map[string]any{"command": "c", "plugins": []any{map[string]any{s: nil}}}}}); err == nil {
+			if p, perr := pipeline.Parse(strings.NewReader(string(doc))); perr == nil {
+				if cs, ok := p.Steps[0].(*pipeline.CommandStep); ok && len(cs.Plugins) == 1 {
+					if cs.Plugins[0].Source != s || cs.Plugins[0].FullSource() != got {
+						oracleFail("C17", "parsed-source", c, fmt.Sprintf("parsed plugin has Source %q / FullSource %q; written %q, FullSource of that %q", cs.Plugins[0].Source, cs.Plugins[0].FullSource(), s, got))
+						return
+					}
+					stat("C17", "through-parse")
+				}
+			}
+		}
+	}
+	c17parseN++
 	nt := "1"
 	if got == s {
 		nt = "0"
@@ -131,6 +148,10 @@ func init() {
 				c17one(org+"/"+name+ref, "github.com/"+org+"/"+name+"-buildkite-plugin"+ref, "org")
 			case 6:
 				s := sx.Pick(rng, []string{"/", "./", "../", ".", "\\", ".\\", "/abs/"}) + org + "/" + name + ref
+				if rng.Chance(40) {
+					// one segment only: ../name, ./name, .name, ..name
+					s = sx.Pick(rng, []string{"../", "./", ".", "..", "/"}) + name + ref
+				}
 				c17one(s, s, "path")
 			case 7:
 				s := sx.Pick(rng, []string{"https://", "ssh://git@", "file:///", "git+ssh://", "http://user:pw@"}) + "github.com/" + org + "/" + name + ref
